@@ -33,12 +33,12 @@ theorem checksum_eq_spec (f : Frame) (id : UInt32) (p : Bytes) (hm : f.msg = .ra
     obtain ⟨ic, c, seq, sys, comp, msg, crc, link, ts, sig⟩ := g
     simp [Frame.msg] at hm; subst hm
     refine ⟨_, rfl, ?_⟩
-    simp [x25_sum_eq_crc16, crcInput, V2Frame.crcInput, lenByte, Msg.id, uint24Encode, le24]
+    simp [x25_sum_eq_crc16, crcInput, V2Frame.crcInput, lenByte, Msg.id, uint24Encode, Gen.uint24Encode, le24]
 
 /-- **C02 (gate).** With a dialect containing the frame's id, the reader's dialect gate delivers a frame
     exactly when the carried checksum equals the CRC (with that message's CRC_EXTRA) and the payload decodes;
     a checksum mismatch is reported as the non-fatal parse error `crcWrong`, nothing delivered. -/
-theorem gate_iff (cfg : RCfg) (d : UInt32 → Option Codec) (hd : cfg.dialect = some d)
+theorem gate_iff (cfg : RCfg) (d : UInt32 → Option Codec) (hd : cfg.dialect = some d) (ho : cfg.specWindow = false)
     (f : Frame) (id : UInt32) (p : Bytes) (hm : f.msg = .raw id p) (c : Codec) (hc : d id = some c) :
     ((∃ g, dialectGate cfg f = .frame g) ↔
       (f.crc.toBitVec = crc16 (crcInput f ++ [c.crcExtra]) ∧ ∃ v, c.decode f.isV2 p = .ok v)) ∧
@@ -50,7 +50,7 @@ theorem gate_iff (cfg : RCfg) (d : UInt32 → Option Codec) (hd : cfg.dialect = 
   constructor
   · constructor
     · rintro ⟨g, hg⟩
-      simp only [dialectGate, hd, hm, hc, hs] at hg
+      simp only [dialectGate, hd, hm, hc, ho, Bool.false_eq_true, ↓reduceIte, hs] at hg
       by_cases hcrc : (s != f.crc) = true
       · simp [hcrc] at hg
       · have : f.crc.toBitVec = s.toBitVec := by
@@ -63,7 +63,7 @@ theorem gate_iff (cfg : RCfg) (d : UInt32 → Option Codec) (hd : cfg.dialect = 
         | panic => simp [hdec] at hg
     · rintro ⟨hcrc, v, hv⟩
       have hcrc' : ¬ ((s != f.crc) = true) := fun h => (hne.mp h) hcrc
-      simp only [dialectGate, hd, hm, hc, hs, hv]
+      simp only [dialectGate, hd, hm, hc, ho, Bool.false_eq_true, ↓reduceIte, hs, hv]
       cases f with
       | v1 g => simp [hcrc']
       | v2 g =>
@@ -71,7 +71,7 @@ theorem gate_iff (cfg : RCfg) (d : UInt32 → Option Codec) (hd : cfg.dialect = 
         split <;> exact ⟨_, rfl⟩
   · intro hcrc
     have : (s != f.crc) = true := hne.mpr hcrc
-    simp [dialectGate, hd, hm, hc, hs, this]
+    simp [dialectGate, hd, hm, hc, ho, hs, this]
 
 /-- an id outside the dialect passes through undecoded (no CRC_EXTRA is known for it) -/
 theorem gate_unknown_id (cfg : RCfg) (d : UInt32 → Option Codec) (hd : cfg.dialect = some d)
